@@ -202,3 +202,6 @@ CHECKS["C18"]["race_packages"] = ["schedh"]
 CHECKS["C14"]["packages"] = ["l2monitor", "schedh"]
 CHECKS["C17"]["packages"] = ["l2node", "schedh"]
 CHECKS["C03"]["packages"] = ["l1chan", "l2node"]
+CHECKS["C16"]["packages"] = ["l2transport", "schedh"]
+CHECKS["C02"]["packages"] = ["l1chan", "l2node", "schedh"]
+CHECKS["C09"]["packages"] = ["l1chan", "l2node", "l2transport", "schedh"]
